@@ -187,12 +187,19 @@ Proof.
 Qed.
 
 Lemma bp_hidden_in fx s ents j v : forall es known, In (j, v) (bp_hidden fx s ents es known) ->
-  exists sc known', In (j, sc) es /\ v = bp_newlen fx s ents known' j sc.
+  exists sc known', (forall k, In k known -> In k known') /\
+    (forall k, In k known' -> In k known \/ In k (map fst es)) /\
+    In (j, sc) es /\ v = bp_newlen fx s ents known' j sc.
 Proof.
   induction es as [|[i sc] r IH]; intros known H; [destruct H|]. cbn [bp_hidden] in H.
   destruct (mem i known).
-  - destruct (IH known H) as (sc' & k' & H1 & H2). exists sc', k'. split; [right; exact H1|exact H2].
+  - destruct (IH known H) as (sc' & k' & H0 & H0' & H1 & H2). exists sc', k'. split; [exact H0|].
+    split; [|split; [right; exact H1|exact H2]]. intros k Hk. destruct (H0' k Hk); [left; assumption|right; right; assumption].
   - destruct H as [H|H].
-    + inversion H; subst. exists sc, known. split; [left; reflexivity|reflexivity].
-    + destruct (IH _ H) as (sc' & k' & H1 & H2). exists sc', k'. split; [right; exact H1|exact H2].
+    + inversion H; subst. exists sc, known. split; [tauto|]. split; [tauto|]. split; [left; reflexivity|reflexivity].
+    + destruct (IH _ H) as (sc' & k' & H0 & H0' & H1 & H2). exists sc', k'. split; [|split; [|split; [right; exact H1|exact H2]]].
+      * intros k Hk. apply H0, in_or_app. left. exact Hk.
+      * intros k Hk. destruct (H0' k Hk) as [Hk'|Hk'].
+        -- apply in_app_or in Hk'. destruct Hk' as [Hk'|[<-|[]]]; [left; exact Hk'|right; left; reflexivity].
+        -- right. right. exact Hk'.
 Qed.
